@@ -258,6 +258,14 @@ impl<'a> G<'a> {
             }).collect();
             c.frames = Some(frames);
         }
+        if self.cfg.frames && self.major < 50 && self.rng.chance(1, 3) {
+            // pre-50 classes: full frames only; emit.rs writes them as the CLDC `StackMap` attribute (absolute offsets, entries in any order)
+            let k = self.rng.small(6).min(n);
+            let mut at: Vec<usize> = vec![]; for _ in 0..k { at.push(self.rng.below(n)); } at.sort(); at.dedup();
+            if !at.is_empty() {
+                c.frames = Some(at.into_iter().map(|p| { let a = self.rng.small(4); let b = self.rng.small(3); Frame { at: p as Pos, kind: FrameKind::Full { locals: (0..a).map(|_| self.vtype(n)).collect(), stack: (0..b).map(|_| self.vtype(n)).collect() } } }).collect());
+            }
+        }
         let nexc = c.exceptions.len();
         (c.vis_type_annotations, c.invis_type_annotations) = self.type_annotations(|g| {
             match g.rng.below(if nexc > 0 { 4 } else { 3 }) {
